@@ -203,6 +203,10 @@ def std_transfer(I, fr, t, c, pth):
             if isinstance(a, RangeIt) and a.end - a.cur <= 65536:
                 fr.storev(dest, SliceIt([Int(i) for i in range(a.end - 1, a.cur - 1, -1)], 0))
                 return True
+            if is_iter(a) and not hasattr(a, 'entries'):
+                # any other finite modelled iterator: materialise and reverse
+                fr.storev(dest, SliceIt(list(reversed(drain(I, a, where))), 0))
+                return True
             return False
         if name == 'for_each' and len(args) == 2:
             itv = fr.operand(args[0])
